@@ -71,10 +71,12 @@ DecFrom(bits, p, acc) ==
          IF r[1] = -1 THEN
               \* an incomplete code at the end: padding; at most 7 bits, all ones
               LET k == Len(bits) - p + 1 IN
-              IF k > 7 THEN [ok |-> FALSE, why |-> "padding-too-long"]
-              ELSE IF \E i \in p..Len(bits) : bits[i] = 0 THEN [ok |-> FALSE, why |-> "padding-not-eos-prefix"]
+              \* (the reason distinguishes a padding with a zero bit from an all-ones padding that is merely too long)
+              IF \E i \in p..Len(bits) : bits[i] = 0 THEN [ok |-> FALSE, why |-> "padding-not-eos-prefix"]
+              ELSE IF k > 7 THEN [ok |-> FALSE, why |-> "padding-too-long"]
               ELSE [ok |-> TRUE, bytes |-> acc]
-         ELSE IF r[1] = EOS THEN [ok |-> FALSE, why |-> "eos-symbol"]
+         \* (an EOS code followed by nothing but one bits is the over-long all-ones padding seen from the other side)
+         ELSE IF r[1] = EOS THEN [ok |-> FALSE, why |-> IF \A i \in r[2]..Len(bits) : bits[i] = 1 THEN "eos-symbol" ELSE "eos-symbol-inside"]
          ELSE IF r[1] < 0 THEN [ok |-> FALSE, why |-> "invalid-code"]
          ELSE DecFrom(bits, r[2], Append(acc, r[1]))
 
